@@ -266,6 +266,10 @@ def _seed_packets():
         'lp-fragment-empty': net.lp_wrap(b''),
         'unknown-type': T.enc_tlv(0x99, b'abc'),
         'name-only': T.enc_tlv(7, b''.join(n1)),
+        # legal but unusual magnitudes: a typed-number component of 2000 octets (packets may be up to 8800 octets), 40 components
+        'param-interest-long-number': net.interest_wire([net.comp('x'), T.enc_tlv(50, b'\x01' * 2000)], nonce=79, app_param=b'ap'),
+        'data-long-number': net.data_wire([net.comp('x'), T.enc_tlv(54, b'\x02' * 1900)], content=b'v'),
+        'interest-many-components': net.interest_wire([net.comp('c%d' % i) for i in range(40)], nonce=80),
         'empty-interest': T.enc_tlv(5, b''),
         'empty-data': T.enc_tlv(6, b''),
     }
